@@ -5,6 +5,7 @@ R1 dirty tracking, R2 sync table, R3 id/cookie plumbing, R4 only `sync` (and `fo
 exploration of the abstract session state machine (operations interpreted on their MIR) against the store's contract.
 Equality of the stored values themselves is not decided.
 """
+import re
 from ..facts import callee, callee_resolved, op_place, strip_generics, is_user
 from ..flow import Defs, backward_slice, forward_derived, slice_aggregates, slice_calls
 
@@ -472,6 +473,56 @@ def r4_only_sync_talks_to_store(ctx):
     ctx.floor('C11.R4', 'SessionStore call sites in pavex_session (positive control)', n, 12)
 
 
+def r6_wire_symmetry(ctx):
+    ctx.rule('C11.R6', 'P9 writer/reader agreement on the cookie payload (WireClientState): Serialize hands every field to serialize_field as a value '
+             'of the field\'s own declared type (no `serialize_with` wrapper or filtered copy), under the key the Deserialize side reads; the only '
+             'condition under which a field is skipped is "the map is empty" (which `#[serde(default)]` on the reader restores). Whatever the '
+             'client state holds — including null values — is what the next request reads.')
+    W = 'pavex_session::wire::WireClientState'
+    a = ctx.need('C11.R6', 'ADT WireClientState', ctx.fb.adt(CR, W))
+    if a is None:
+        return
+    norm = lambda ty: re.sub(r"'\w+", "'_", ty).replace(' ', '')
+    decl = {f['n']: norm(f['ty']) for v in a['variants'] for f in v['fields']}
+    ser = [b for b in ctx.fb.bodies(CR) if not b.is_promoted and b.raw.get('impl_trait', '').endswith('ser::Serialize') and W in strip_generics(b.raw.get('impl_self', '') or b.nid)]
+    de = [b for b in ctx.fb.bodies(CR) if not b.is_promoted and 'Deserialize for ' + W in b.nid]
+    if not ctx.need('C11.R6', 'impl Serialize for WireClientState', ser) or not ctx.need('C11.R6', 'impl Deserialize for WireClientState', de):
+        return
+    written = {}
+    skips = set()
+    for b in ser:
+        defs = Defs(b)
+        for bb, t in b.calls():
+            c = callee(t) or ''
+            if c.endswith('SerializeStruct::serialize_field') or c.endswith('SerializeMap::serialize_entry'):
+                key = next((x['str'] for x in t['args'] if isinstance(x, dict) and 'str' in x), None)
+                written[key] = norm((t.get('ga') or ['', ''])[-1])
+            if c.endswith('SerializeStruct::skip_field'):
+                from ..govern import controlling_switches
+                for sb, st in controlling_switches(b, bb):
+                    if 'enum' in st:
+                        continue     # `?` on the earlier writes: reaching this point at all, not whether the field is skipped
+                    pl = op_place(st['d']) if 'd' in st else None
+                    if pl is None:
+                        continue
+                    # the calls whose result is tested (copies followed, arguments not: `is_empty(&*self.user_values)` is the predicate)
+                    _, locs = backward_slice(b, pl['l'], defs, through_calls=False)
+                    sl = [(sb2, 0, t2) for sb2, t2 in b.calls() if not t2['dest'].get('p') and t2['dest']['l'] in (locs | {pl['l']})]
+                    skips |= {x.split('::')[-2] + '::' + x.split('::')[-1] for x, _, _ in slice_calls(sl) if x.split('::')[-1] not in ('deref', 'as_ref', 'borrow')}
+    read_keys = set()
+    for b in de:
+        for bb, t in b.calls():
+            if (callee(t) or '').split('::')[-1] in ('missing_field', 'duplicate_field'):
+                read_keys |= {x['str'] for x in t['args'] if isinstance(x, dict) and 'str' in x}
+    ctx.ob('C11.R6', 'keys-agree', set(written) == read_keys and len(written) == len(decl), ser[0].loc(),
+           'keys written %s; keys read %s; declared fields %d' % (sorted(map(str, written)), sorted(read_keys), len(decl)))
+    types = sorted(decl.values())
+    for key, ty in sorted(written.items(), key=lambda kv: str(kv[0])):
+        ctx.ob('C11.R6', 'written-as-declared|%s' % key, ty in types, ser[0].loc(),
+               'field written under key %r is serialised as %s (declared field types: %s)' % (key, ty[:90], [x[:60] for x in types]))
+    ctx.ob('C11.R6', 'skipped-only-when-empty', skips <= {'HashMap::is_empty'}, ser[0].loc(), 'conditions under which a field is skipped: %s' % (sorted(skips) or 'none'))
+
+
 def check(ctx):
     from .c11_model import r5_typestate
     r5_typestate(ctx)
@@ -480,3 +531,4 @@ def check(ctx):
     r3_id_plumbing(ctx)
     r3b_removal_cookie(ctx)
     r4_only_sync_talks_to_store(ctx)
+    r6_wire_symmetry(ctx)
